@@ -2,7 +2,6 @@ package main
 
 import (
 	"fmt"
-	"os"
 	"os/exec"
 	"sync"
 
@@ -80,7 +79,7 @@ func cmdSelftest(args []string) {
 	}
 	fmt.Printf("selftest: %d comparisons, %d mismatches\n", total, bad)
 	if bad > 0 {
-		os.Exit(2)
+		quit(2)
 	}
 }
 
